@@ -162,3 +162,34 @@ Proof.
   - intros _. destruct (parse_statements_unmodelled _ _ _ _ _ E) as (st & Hs & Hp). exists st. split; [exact Hs|].
     apply parse_equation_unmodelled, Hp.
 Qed.
+
+(* ---------- where exactly the hole is (review item: PUnmodelled must not hide a foreign exception) ---------- *)
+(* parse_equation_M st = PUnmodelled pins the real code to ONE program point: every earlier check of parse_equation has
+   passed (not blank, exactly one statement, no verbatim statement, braces balanced, the terms parse, every term has a
+   str() and a code) and the model stopped inside `template.format(...)` — the call that fsic wraps in
+   `try … except (AttributeError, IndexError, KeyError, MemoryError, OverflowError, TypeError, ValueError)` (fix 6fcad37,
+   completed by 51af71a).  What the model does not decide there is whether that call fails (→ ParserError, an own error)
+   or succeeds with a text the model does not compute; no other program point is skipped. *)
+Theorem unmodelled_only_inside_format st :
+  parse_equation_M st = PUnmodelled ->
+  is_blank st = false /\ split_M st = (fst (split_M st), None) /\ length (fst (split_M st)) = 1%nat /\
+  (head_is "`" st && last_is "`" st) = false /\ count_char "{" st = count_char "}" st /\
+  exists terms strs codes,
+    parse_equation_terms st = Ret terms /\ all_some (map term_str terms) = Some strs /\ all_some (map term_code terms) = Some codes /\
+    (py_format (template st) strs = FUnmodelled \/
+     (exists sd, py_format (template st) strs = FOk sd /\ py_format (template st) codes = FUnmodelled)).
+Proof.
+  unfold parse_equation_M. destruct (is_blank st); [discriminate|].
+  destruct (split_M st) as [stmts [e|]]; [discriminate|]. cbn [fst].
+  destruct (negb (length stmts =? 1)%nat) eqn:El; [discriminate|]. apply negb_false_iff, Nat.eqb_eq in El.
+  destruct (head_is "`" st && last_is "`" st); [discriminate|].
+  destruct (negb (count_char "{" st =? count_char "}" st)%nat) eqn:Eb; [discriminate|]. apply negb_false_iff, Nat.eqb_eq in Eb.
+  destruct (parse_equation_terms st) as [terms|e] eqn:Et; [|discriminate].
+  destruct (all_some (map term_str terms)) as [strs|] eqn:Es; [|discriminate].
+  destruct (all_some (map term_code terms)) as [codes|] eqn:Ec; [|discriminate].
+  intros H. split; [reflexivity|]. split; [reflexivity|]. split; [exact El|]. split; [reflexivity|]. split; [exact Eb|].
+  exists terms, strs, codes. split; [reflexivity|]. split; [exact Es|]. split; [exact Ec|].
+  destruct (py_format (template st) strs) as [sd| |] eqn:E1; [|discriminate|left; reflexivity].
+  destruct (py_format (template st) codes) as [cd| |] eqn:E2; [|discriminate|right; eauto].
+  destruct (equation_symbols sd cd terms); discriminate.
+Qed.
